@@ -1,46 +1,90 @@
 #!/usr/bin/env python3
 """Benign-edit self-test (informational): apply every behaviour-preserving refactor under seeded/benign/*.diff (each
-one separately, then all together) to a scratch clone of /repo and run the quick check of every claimed property.
-Every check must stay silent.  Results: seeded/BENIGN.json.  Nothing here is a registered check."""
+one separately, then the hand-written b*.diff all together) to a scratch clone of /repo and run the quick check of
+every claimed property.  Every check must stay silent.  Results: seeded/BENIGN.json.  Not a registered check.
+usage: benign.py [--jobs N] [name-prefix ...]"""
 import glob, json, os, shutil, subprocess, sys, tempfile, time
 V = os.path.dirname(os.path.dirname(os.path.abspath(__file__)))
 props = [c["property_id"] for c in json.load(open(os.path.join(V, "MANIFEST.json")))["checks"]]
+args = sys.argv[1:]
+jobs, worker = 1, None
+if "--jobs" in args:
+    i = args.index("--jobs"); jobs = int(args[i + 1]); del args[i:i + 2]
+if "--worker" in args:
+    i = args.index("--worker"); worker = (int(args[i + 1]), int(args[i + 2]), args[i + 3]); del args[i:i + 4]
+only = [a for a in args if not a.startswith("--")]
 diffs = sorted(glob.glob(os.path.join(V, "seeded", "benign", "*.diff")))
-scratch = tempfile.mkdtemp(prefix="benign-")
-repo = os.path.join(scratch, "repo")
-subprocess.check_call(["git", "clone", "-q", "/repo", repo])
-env = dict(os.environ, RUSTUN_REPO=repo, VERIF_OUT_DIR=os.path.join(scratch, "out"))
-res = {}
+cases = [[d] for d in diffs]
+hand = [d for d in diffs if os.path.basename(d).startswith("b")]
+if hand:
+    cases.append(hand)
+
+
+def name_of(case):
+    return os.path.basename(case[0])[:-5] if len(case) == 1 else "all-together"
+
+
+if only:
+    cases = [c for c in cases if any(name_of(c).startswith(o) for o in only)]
+
+
+def work(my_cases, out_file):
+    scratch = tempfile.mkdtemp(prefix="benign-")
+    repo = os.path.join(scratch, "repo")
+    subprocess.check_call(["git", "clone", "-q", "/repo", repo])
+    env = dict(os.environ, RUSTUN_REPO=repo, VERIF_OUT_DIR=os.path.join(scratch, "out"))
+    if worker is not None:
+        env["VERIF_TARGET_DIR"] = os.path.join(scratch, "target")
+    res = {}
+    try:
+        for case in my_cases:
+            name = name_of(case)
+            ok = True
+            for d in case:
+                a = subprocess.run(["git", "-C", repo, "apply", d], stdout=subprocess.PIPE, stderr=subprocess.STDOUT, text=True)
+                if a.returncode != 0:
+                    res[name] = {"error": "patch does not apply: " + a.stdout[-200:], "silent": False}
+                    ok = False
+                    break
+            if ok:
+                alarms = {}
+                for p in props:
+                    r = subprocess.run([os.path.join(V, "bin", "verif"), "check", p], env=env, stdout=subprocess.PIPE, stderr=subprocess.STDOUT, text=True)
+                    if r.returncode != 0:
+                        alarms[p] = [l.strip()[:300] for l in r.stdout.splitlines() if l.startswith("  rule ")][:3]
+                res[name] = {"alarms": alarms, "silent": not alarms}
+                print(name, "->", "silent" if not alarms else "ALARM " + ",".join(sorted(alarms)), flush=True)
+            subprocess.check_call(["git", "-C", repo, "checkout", "-q", "--", "."])
+            subprocess.check_call(["git", "-C", repo, "clean", "-fdq"])
+    finally:
+        shutil.rmtree(scratch, ignore_errors=True)
+    json.dump(res, open(out_file, "w"), indent=1, sort_keys=True)
+
+
 t0 = time.time()
-
-
-def run_all():
-    row = {}
-    for p in props:
-        r = subprocess.run([os.path.join(V, "bin", "verif"), "check", p], env=env, stdout=subprocess.PIPE, stderr=subprocess.STDOUT, text=True)
-        if r.returncode != 0:
-            row[p] = [l.strip()[:300] for l in r.stdout.splitlines() if l.startswith("  rule ")][:3]
-    return row
-
-
-try:
-    cases = [[d] for d in diffs] + ([diffs] if "--together" in sys.argv or len(sys.argv) == 1 else [])
-    for case in cases:
-        name = os.path.basename(case[0])[:-5] if len(case) == 1 else "all-together"
-        ok = True
-        for d in case:
-            a = subprocess.run(["git", "-C", repo, "apply", d], stdout=subprocess.PIPE, stderr=subprocess.STDOUT, text=True)
-            if a.returncode != 0:
-                res[name] = {"error": "patch does not apply: " + a.stdout[-200:]}
-                ok = False
-                break
-        if ok:
-            alarms = run_all()
-            res[name] = {"alarms": alarms, "silent": not alarms}
-            print(name, "->", "silent" if not alarms else "ALARM " + ",".join(sorted(alarms)), flush=True)
-        subprocess.check_call(["git", "-C", repo, "checkout", "-q", "--", "."])
-finally:
-    shutil.rmtree(scratch, ignore_errors=True)
+if worker is not None:
+    k, n, out_file = worker
+    work(cases[k::n], out_file)
+    sys.exit(0)
+parts = []
+if jobs <= 1:
+    f = tempfile.mktemp(prefix="benign-part-"); work(cases, f); parts.append(f)
+else:
+    procs = []
+    for k in range(jobs):
+        f = tempfile.mktemp(prefix="benign-part-%d-" % k); parts.append(f)
+        procs.append(subprocess.Popen([sys.executable, os.path.abspath(__file__), "--worker", str(k), str(jobs), f] + only))
+    for p in procs:
+        p.wait()
+res = {}
+for f in parts:
+    if os.path.exists(f):
+        res.update(json.load(open(f))); os.remove(f)
+dst = os.path.join(V, "seeded", "BENIGN.json")
+if only and os.path.exists(dst):
+    old = json.load(open(dst)); old.update(res); res = old
 res["_wall_s"] = round(time.time() - t0)
-json.dump(res, open(os.path.join(V, "seeded", "BENIGN.json"), "w"), indent=1, sort_keys=True)
-sys.exit(0 if all(v.get("silent") for k, v in res.items() if not k.startswith("_")) else 1)
+json.dump(res, open(dst, "w"), indent=1, sort_keys=True)
+bad = [k for k, v in res.items() if not k.startswith("_") and not v.get("silent")]
+print("%d cases, alarms on: %s" % (len([k for k in res if not k.startswith('_')]), bad or "none"))
+sys.exit(0 if not bad else 1)
